@@ -251,11 +251,16 @@ def names():
 def get(name, seed=0):
     """Return a fresh copy (v, e, d) of a catalogue mesh.
 
-    'name^' = uniformly refined, 'name^^' = twice.
+    'name^' = uniformly refined, 'name^^' = twice.  'name~3' (after any ^) = the elements of domain 3 stored with reversed
+    orientation (to be repaired with swapped_normals=[3]).
     """
     global _CAT
     if _CAT is None:
         _CAT = _catalogue()
+    if "~" in name:
+        base, dom = name.rsplit("~", 1)
+        m = get(base, seed)
+        return reverse_elements(m, [j for j in range(m[1].shape[1]) if int(m[2][j]) == int(dom)])
     nref = 0
     while name.endswith("^"):
         name = name[:-1]
